@@ -1,8 +1,8 @@
 SPECIFICATION Spec
 CONSTANTS
-  Elems = {1, 2}
-  Workers = {1, 2}
+  Elems = {1}
+  Workers = {1}
   MaxT = 1
-  MaxSizes = {0, 1}
+  MaxSizes = {0}
   Variant = "select_race"
 INVARIANTS TypeOK AtMostOnce NeverEarly CancelHonoured CancelRemoves QuietDelivered QuietShutdown
